@@ -10,6 +10,8 @@ import (
 	"go/ast"
 	"regexp"
 	"strings"
+
+	"verif/harness/internal/gast"
 )
 
 var adaptPure = []string{"getPluginRequestTimeout", "getPluginRegistrationTimeout", "isFatalError",
@@ -120,6 +122,7 @@ func relayFunction(p *pkgInfo, name string, evVal func(string) (int64, bool)) re
 		return rf
 	}
 	x := newSymex(p, []string{"close", "isClosed", "stop"}, adaptPure)
+	x.dropEmptySections = true
 	outs := x.run(fi)
 	if u := unsupported(outs); u != "" {
 		rf.why = u
@@ -292,14 +295,16 @@ func entryPoint(p *pkgInfo, name string) entryFacts {
 			}
 			continue
 		}
-		if len(tr) < 3 || tr[0].String() != "$r.Lock()" || tr[1].String() != "defer $r.Unlock()" || tr[2].String() != "defer $r.removeClosedPlugins()" {
+		// the lock first; on the way out (deferred, so on every path) the closed plugins are pruned, then the lock released
+		n := len(tr)
+		if n < 3 || tr[0].String() != "$r.Lock()" || tr[n-2].String() != "defer $r.removeClosedPlugins()" || tr[n-1].String() != "defer $r.Unlock()" {
 			ef.locked = false
-			ef.why = "does not start with lock, deferred unlock, deferred pruning"
+			ef.why = "is not: lock first; deferred pruning, then deferred unlock last"
 			continue
 		}
 		var failedCall string
 		loopKey := ""
-		for _, e := range tr[3:] {
+		for _, e := range tr[1 : n-2] {
 			switch {
 			case e.fn == "range":
 				if len(e.args) != 1 || e.args[0] != "$r.plugins" {
@@ -401,20 +406,21 @@ func adaptationUpdate(p *pkgInfo) (bool, string) {
 	}
 	o := outs[0]
 	tr := o.st.trace
-	if len(tr) != 3 || tr[0].String() != "$r.Lock()" || tr[1].String() != "defer $r.Unlock()" || tr[2].String() != "$r.updateFn($0,$1)" {
+	if len(tr) != 3 || tr[0].String() != "$r.Lock()" || tr[1].String() != "$r.updateFn($0,$1)" || tr[2].String() != "defer $r.Unlock()" {
 		var s []string
 		for _, e := range tr {
 			s = append(s, e.String())
 		}
 		return false, "effects: " + strings.Join(s, "; ")
 	}
-	if len(o.ret) != 2 || o.ret[0].String() != "call2.0" || o.ret[1].String() != "call2.1" {
-		if len(o.ret) == 1 && o.ret[0].String() == "call2" {
-			return true, ""
-		}
-		return false, "does not return the call-back's results"
+	call := fmt.Sprintf("call%d", tr[1].id)
+	if len(o.ret) == 2 && o.ret[0].String() == call+".0" && o.ret[1].String() == call+".1" {
+		return true, ""
 	}
-	return true, ""
+	if len(o.ret) == 1 && o.ret[0].String() == call {
+		return true, ""
+	}
+	return false, "does not return the call-back's results"
 }
 
 // plugin.UpdateContainers: nothing but the call r.updateContainers(ctx, req.Update); returns a response whose
@@ -442,7 +448,8 @@ func pluginUpdate(p *pkgInfo) (bool, string) {
 		}
 		return false, "effects: " + strings.Join(s, "; ")
 	}
-	if len(o.ret) != 2 || o.ret[0].String() != "UpdateContainersResponse{Failed:call0.0}" || o.ret[1].String() != "call0.1" {
+	call := fmt.Sprintf("call%d", tr[0].id)
+	if len(o.ret) != 2 || o.ret[0].String() != "UpdateContainersResponse{Failed:"+call+".0}" || o.ret[1].String() != call+".1" {
 		return false, "returns " + fmt.Sprint(o.ret)
 	}
 	return true, ""
@@ -499,16 +506,17 @@ func stubUpdate(p *pkgInfo) (guard, relays, unbounded bool, why string) {
 			relays = false
 			why = "the request is " + tr[0].args[1]
 		}
-		if len(o.ret) != 2 || o.ret[1].String() != "call0.1" {
+		call := fmt.Sprintf("call%d", tr[0].id)
+		if len(o.ret) != 2 || o.ret[1].String() != call+".1" {
 			relays = false
 			why = "the error returned is not the call's"
 			continue
 		}
 		got := o.ret[0].String()
-		rnil, tested := decOf(o, "nil?(call0.0)")
+		rnil, tested := decOf(o, "nil?("+call+".0)")
 		switch {
-		case got == "getf(call0.0,Failed)":
-		case tested && !rnil && got == "call0.0.Failed":
+		case got == "getf("+call+".0,Failed)":
+		case tested && !rnil && got == call+".0.Failed":
 		case tested && rnil && got == "nil":
 		default:
 			relays = false
@@ -558,7 +566,7 @@ func sortOrder(p *pkgInfo) (prunesFirst bool, less string) {
 	}
 	// execute the comparison with i, j symbolic; the variables it captures are resolved by executing the
 	// statements of sortPlugins up to the call in the same frame
-	st := &state{frames: map[int]map[string]*val{}, loopExit: map[string]string{}}
+	st := newState()
 	cx := &actx{file: fi.file}
 	fr := x.frame(st)
 	cx.vis = []int{fr}
@@ -615,7 +623,7 @@ func configureMask(p *pkgInfo) (zeroAll, refuses bool, why string) {
 		return false, false, "events := … / p.events = events not found"
 	}
 	x := newSymex(p, nil, adaptPure)
-	st := &state{frames: map[int]map[string]*val{}, loopExit: map[string]string{}}
+	st := newState()
 	cx := &actx{file: fi.file}
 	fr := x.frame(st)
 	cx.vis = []int{fr}
@@ -677,42 +685,5 @@ func configureMask(p *pkgInfo) (zeroAll, refuses bool, why string) {
 
 // ---------------------------------------------------------------- tokens without statements that have no effect
 
-// significant: false for calls on the log package and for updates of diagnostic counters.
-func (p *pkgInfo) significant(f fileRenderer, s ast.Stmt) bool {
-	switch x := s.(type) {
-	case *ast.ExprStmt:
-		if ce, ok := x.X.(*ast.CallExpr); ok {
-			if isLogCall(f(ce.Fun)) {
-				return false
-			}
-			if se, ok := ce.Fun.(*ast.SelectorExpr); ok {
-				if in, ok := se.X.(*ast.SelectorExpr); ok && p.counters[in.Sel.Name] {
-					return false
-				}
-			}
-		}
-	case *ast.IncDecStmt:
-		if se, ok := x.X.(*ast.SelectorExpr); ok && p.counters[se.Sel.Name] {
-			return false
-		}
-	case *ast.AssignStmt:
-		if len(x.Lhs) == 1 {
-			if se, ok := x.Lhs[0].(*ast.SelectorExpr); ok && p.counters[se.Sel.Name] {
-				return false
-			}
-		}
-	case *ast.IfStmt:
-		// a test whose only consequence is logging
-		if x.Else == nil && x.Init == nil {
-			for _, b := range x.Body.List {
-				if p.significant(f, b) {
-					return true
-				}
-			}
-			return false
-		}
-	}
-	return true
-}
-
-type fileRenderer func(ast.Node) string
+// significant: false for statements that only log or write diagnostic fields.
+func (p *pkgInfo) significant(f *gast.File, s ast.Stmt) bool { return !p.insignificant(f, s) }
